@@ -2662,7 +2662,7 @@ avx_rule_addusl_slow (OrcCompiler *p, void *user, OrcInstruction *insn)
     orc_avx_emit_paddd (p, tmp, tmp2, tmp);
 
     orc_avx_emit_psrad_imm (p, 31, tmp, tmp);
-    orc_avx_emit_paddd (p, dest, src1, dest);
+    orc_avx_emit_paddd (p, src0, src1, dest);
     orc_avx_emit_por (p, dest, tmp, dest);
   } else {
     orc_avx_sse_emit_pand (p, src0, src1, tmp);
@@ -2672,7 +2672,7 @@ avx_rule_addusl_slow (OrcCompiler *p, void *user, OrcInstruction *insn)
     orc_avx_sse_emit_paddd (p, tmp, tmp2, tmp);
 
     orc_avx_sse_emit_psrad_imm (p, 31, tmp, tmp);
-    orc_avx_sse_emit_paddd (p, dest, src1, dest);
+    orc_avx_sse_emit_paddd (p, src0, src1, dest);
     orc_avx_sse_emit_por (p, dest, tmp, dest);
   }
 }
